@@ -623,12 +623,12 @@ Section Sim.
   (* one Name target with the statement's own right-hand side (Assign with a single target, AnnAssign) *)
   Lemma St_single : forall sc flow inh outer n ann r v s e e',
       St sc s e -> assign_value (pscope_of sc) e [TName n] r = Some v -> bind_target v (TName n) e = Some e' ->
-      (sc = ScClass -> lookup n inh <> Some SNonAttr) ->
+      (forall pv, v = VData pv -> sc = ScClass -> lookup n inh <> Some SNonAttr) ->
       St sc (handle_assignment sc flow inh outer (TName n) ann (Some r) false s) e'.
   Proof.
     intros sc flow inh outer n ann r v s e e' HS Ev Hpy Hinh.
     destruct r as [lv|y|f args|]; cbn in Ev.
-    - inversion Ev; subst. cbn in Hpy. apply (St_data_target sc flow inh outer n ann (Some (RLit lv)) false (Some lv) s e e'); auto. right; exact I.
+    - inversion Ev; subst. cbn in Hpy. specialize (Hinh _ eq_refl). apply (St_data_target sc flow inh outer n ann (Some (RLit lv)) false (Some lv) s e e'); auto. right; exact I.
     - discriminate.
     - destruct (text_eqb f p_staticmethod || text_eqb f p_classmethod) eqn:Ef.
       + (* the old-style wrapping of a method of this class body *)
@@ -655,19 +655,23 @@ Section Sim.
           destruct (text_eqb f p_staticmethod) eqn:E1; [reflexivity|].
           cbn in Ef. rewrite Ef. reflexivity.
         * eapply good_upd; eauto. exact Logic.I. intros _. apply (proj1 HG n _ (lookup_In _ _ _ E)). reflexivity.
-      + destruct (text_eqb f p_property); [discriminate|]. inversion Ev; subst. cbn in Hpy.
+      + destruct (text_eqb f p_property); [discriminate|]. inversion Ev; subst. cbn in Hpy. specialize (Hinh _ eq_refl).
         apply (St_data_target sc flow inh outer n ann (Some (RCall f args)) false None s e e'); auto.
         right. unfold plain_expr. rewrite oldschool_table. cbn.
         apply orb_false_iff in Ef. destruct Ef as [E1 E2]. rewrite E1, E2. reflexivity.
-    - inversion Ev; subst. cbn in Hpy. apply (St_data_target sc flow inh outer n ann (Some ROther) false None s e e'); auto. right; exact I.
+    - inversion Ev; subst. cbn in Hpy. specialize (Hinh _ eq_refl). apply (St_data_target sc flow inh outer n ann (Some ROther) false None s e e'); auto. right; exact I.
   Qed.
 
   Lemma St_assign : forall sc flow inh outer ts r s e e' strict,
       St sc s e -> py_stmt strict (Assign ts r) (pscope_of sc) e = Some e' ->
-      (forall n, In n (flat_map target_names ts) -> sc = ScClass -> lookup n inh <> Some SNonAttr) ->
+      (forall n, In n (assigned_names (Assign ts r)) -> sc = ScClass -> lookup n inh <> Some SNonAttr) ->
       St sc (walk_stmt clean (Assign ts r) sc flow inh outer s) e'.
   Proof.
-    intros sc flow inh outer ts r s e e' strict HS Hpy Hinh. cbn [walk_stmt py_stmt] in *.
+    intros sc flow inh outer ts r s e e' strict HS Hpy Hinh0.
+    assert (Hinh : is_wrapping ts r = false ->
+                   forall n, In n (flat_map target_names ts) -> sc = ScClass -> lookup n inh <> Some SNonAttr).
+    { intros Hw. cbn [assigned_names] in Hinh0. rewrite Hw in Hinh0. exact Hinh0. }
+    clear Hinh0. cbn [walk_stmt py_stmt] in *.
     change (St sc (fold_left (assign_step sc flow inh outer r) ts s) e').
     destruct (assign_value (pscope_of sc) e ts r) as [v|] eqn:Ev; [|discriminate].
     destruct v as [asy w d|x d ns|pv|].
@@ -681,21 +685,25 @@ Section Sim.
       inversion Hpy; subst e1. cbn [fold_left assign_step].
       eapply St_single; eauto.
       * rewrite Esc. cbn. rewrite Ef. exact Ev.
-      * intros; apply Hinh; auto. cbn. auto.
+      * intros; discriminate.
     - destruct r as [lv|y|f args|]; cbn in Ev; try discriminate.
       destruct (text_eqb f p_staticmethod || text_eqb f p_classmethod).
       + destruct (pscope_of sc); [discriminate|]. destruct ts as [|[n| |] [|? ?]]; try discriminate.
         destruct args as [|a [|? ?]]; try discriminate. destruct (text_eqb n a); [|discriminate].
         destruct (plookup n e) as [[? [| | |] ?| | |]|]; discriminate.
       + destruct (text_eqb f p_property); discriminate.
-    - eapply St_targets_data; eauto.
-      destruct r as [lv|y|f args|]; cbn in Ev; try discriminate; try exact I.
-      unfold plain_expr. rewrite oldschool_table. cbn.
-      destruct (text_eqb f p_staticmethod || text_eqb f p_classmethod) eqn:Ef.
-      + destruct (pscope_of sc); [discriminate|]. destruct ts as [|[n| |] [|? ?]]; try discriminate.
-        destruct args as [|a [|? ?]]; try discriminate. destruct (text_eqb n a); [|discriminate].
-        destruct (plookup n e) as [[? [| | |] ?| | |]|]; discriminate.
-      + apply orb_false_iff in Ef. destruct Ef as [E1 E2]. rewrite E1, E2. reflexivity.
+    - assert (Hplain : plain_expr (Some r) /\ is_wrapping ts r = false).
+      { destruct r as [lv|y|f args|]; cbn in Ev; try discriminate; try (split; [exact I|reflexivity]).
+        destruct (text_eqb f p_staticmethod || text_eqb f p_classmethod) eqn:Ef.
+        + destruct (pscope_of sc); [discriminate|]. destruct ts as [|[n| |] [|? ?]]; try discriminate.
+          destruct args as [|a [|? ?]]; try discriminate. destruct (text_eqb n a); [|discriminate].
+          destruct (plookup n e) as [[? [| | |] ?| | |]|]; discriminate.
+        + split.
+          * unfold plain_expr. rewrite oldschool_table. cbn.
+            apply orb_false_iff in Ef. destruct Ef as [E1 E2]. rewrite E1, E2. reflexivity.
+          * unfold is_wrapping. destruct args as [|a [|? ?]]; auto. destruct ts as [|[n| |] [|? ?]]; auto.
+            rewrite Ef. apply andb_false_r. }
+      destruct Hplain as [Hplain Hw]. eapply St_targets_data; eauto.
     - destruct r as [lv|y|f args|]; cbn in Ev; try discriminate.
       destruct (text_eqb f p_staticmethod || text_eqb f p_classmethod).
       + destruct (pscope_of sc); [discriminate|]. destruct ts as [|[n| |] [|? ?]]; try discriminate.
@@ -939,10 +947,292 @@ Section Sim.
     apply summary_nonattr in Hin. destruct Hin as [o [Ho Ha]]. eapply Hna; eauto.
   Qed.
 
+  (* ================================================================ the import/alias map only names Python has bound *)
+  Definition imps_ok (s : st) (e : env) : Prop := forall n, lookup n (imps s) <> None -> plookup n e <> None.
+
+  Lemma plookup_bind_mono : forall n m v e, plookup n e <> None -> plookup n (bind m v e) <> None.
+  Proof. intros n m v e H. rewrite plookup_bind. destruct (text_eqb n m); [discriminate|exact H]. Qed.
+
+  Lemma imps_ok_mono : forall s s' e e',
+      imps s' = imps s -> (forall n, plookup n e <> None -> plookup n e' <> None) -> imps_ok s e -> imps_ok s' e'.
+  Proof. intros s s' e e' Hi Hm H n Hn. rewrite Hi in Hn. auto. Qed.
+
+  Lemma imps_add_obj : forall n o s, imps (add_obj n o s) = imps s.
+  Proof. intros. unfold add_obj. destruct (lookup n (contents s)); reflexivity. Qed.
+
+  Lemma imps_upd_attr : forall n f s, imps (upd_attr n f s) = imps s.
+  Proof. intros. unfold upd_attr. destruct (lookup n (contents s)) as [[| |]|]; reflexivity. Qed.
+
+  Lemma imps_attach_doc : forall d s, imps (attach_doc clean d s) = imps s.
+  Proof. intros. unfold attach_doc. destruct (cur s); [|reflexivity]. cbn. apply imps_upd_attr. Qed.
+
+  Lemma imps_hiv : forall inc inh a ann expr s, imps (handle_instance_var inc inh a ann expr s) = imps s.
+  Proof.
+    intros. unfold handle_instance_var. destruct (negb inc); [reflexivity|].
+    destruct (negb (maybe_attribute inh (contents s) a)); [reflexivity|]. cbn. rewrite imps_upd_attr.
+    destruct (lookup a (contents s)); [reflexivity|apply imps_add_obj].
+  Qed.
+
+  Lemma imps_handle_var : forall default flow n ann expr aug s, imps (handle_var default flow n ann expr aug s) = imps s.
+  Proof. intros. unfold handle_var. cbn. apply imps_upd_attr. Qed.
+
+  Lemma imps_handle_module_var : forall flow n ann expr aug s, imps (handle_module_var flow n ann expr aug s) = imps s.
+  Proof.
+    intros. unfold handle_module_var. destruct (mem n module_meta_vars); [reflexivity|].
+    destruct (lookup n (contents s)) as [o|].
+    - destruct (is_attr o); [apply imps_handle_var|reflexivity].
+    - destruct aug; [reflexivity|]. rewrite imps_handle_var. apply imps_add_obj.
+  Qed.
+
+  Lemma imps_handle_class_var : forall inh flow n ann expr aug s, imps (handle_class_var inh flow n ann expr aug s) = imps s.
+  Proof.
+    intros. unfold handle_class_var. destruct (negb (maybe_attribute inh (contents s) n)); [reflexivity|].
+    destruct (lookup n (contents s)) as [o|].
+    - apply imps_handle_var.
+    - destruct aug; [reflexivity|]. rewrite imps_handle_var. apply imps_add_obj.
+  Qed.
+
+  Lemma imps_oldschool : forall n expr s s', oldschool n expr s = Some s' -> imps s' = imps s.
+  Proof.
+    intros n expr s s' H. unfold oldschool in H. destruct expr as [[| |f [|a [|? ?]]|]|]; try discriminate.
+    destruct (text_eqb n a && mem f oldschool_names); [|discriminate].
+    destruct (lookup n (contents s)) as [[k a0 d| |]|]; try discriminate. inversion H; reflexivity.
+  Qed.
+
+  (* the only way the map grows in an assignment: an alias `n = y` for the target n itself *)
+  Lemma imps_handle_assignment : forall sc flow inh chain t ann expr aug s m,
+      lookup m (imps (handle_assignment sc flow inh chain t ann expr aug s)) <> None ->
+      lookup m (imps s) <> None \/ (t = TName m /\ exists y, expr = Some (RName y)).
+  Proof.
+    intros sc flow inh chain t ann expr aug s m H. destruct t as [n|ns|a]; cbn [handle_assignment] in H; auto.
+    assert (Hal : forall s', aliasing chain n expr s = Some s' -> lookup m (imps s') <> None ->
+                             lookup m (imps s) <> None \/ (TName n = TName m /\ exists y, expr = Some (RName y))).
+    { intros s' Ha Hm. unfold aliasing in Ha. destruct (lookup n (contents s)); [discriminate|].
+      destruct expr as [[| y | |]|]; try discriminate. inversion Ha; subst s'. cbn in Hm.
+      destruct (text_eqb m n) eqn:E; auto. apply text_eqb_eq in E. subst. right. eauto. }
+    destruct sc.
+    - destruct (aliasing chain n expr s) as [s'|] eqn:Ea; [eapply Hal; eauto|].
+      rewrite imps_handle_module_var in H. auto.
+    - destruct (if aug then None else oldschool n expr s) as [s'|] eqn:Eo.
+      + destruct aug; [discriminate|]. rewrite (imps_oldschool _ _ _ _ Eo) in H. auto.
+      + destruct (aliasing chain n expr s) as [s'|] eqn:Ea; [eapply Hal; eauto|].
+        rewrite imps_handle_class_var in H. auto.
+  Qed.
+
+  Lemma fold_imps : forall (f : stmt -> st -> st) body,
+      Forall (fun y => forall s, imps (f y s) = imps s) body ->
+      forall s, imps (fold_left (fun s y => f y s) body s) = imps s.
+  Proof.
+    intros f body HF s. apply (fold_preserves (fun s' => imps s' = imps s) f body); auto.
+    eapply Forall_impl; [|exact HF]. cbn. intros y Hy s0 Hs0. rewrite Hy. exact Hs0.
+  Qed.
+
+  Lemma fwalk_imps : forall x inc inh s, imps (fwalk_stmt clean inc inh x s) = imps s.
+  Proof.
+    intro x. induction x as [nm ds a body IH|nm bs body IH|ts r|t an r|t r|d|t b o IHb IHo|b h o f IHb IHh IHo IHf|b IHb|t b o IHb IHo|b o IHb IHo|ns|]
+      using stmt_ind'; intros inc inh s; cbn [fwalk_stmt]; auto.
+    - revert s. induction ts as [|t ts IHts]; cbn; intro s; auto. rewrite IHts. destruct t; auto. apply imps_hiv.
+    - destruct t; auto. apply imps_hiv.
+    - apply imps_attach_doc.
+    - destruct t; auto; apply (fold_imps (fwalk_stmt clean inc inh)); eapply Forall_impl; [|exact IHb| |exact IHb]; cbn; auto.
+    - apply (fold_imps (fwalk_stmt clean inc inh)); eapply Forall_impl; [|exact IHb]; cbn; auto.
+    - apply (fold_imps (fwalk_stmt clean inc inh)); eapply Forall_impl; [|exact IHb]; cbn; auto.
+    - apply (fold_imps (fwalk_stmt clean inc inh)); eapply Forall_impl; [|exact IHb]; cbn; auto.
+    - apply (fold_imps (fwalk_stmt clean inc inh)); eapply Forall_impl; [|exact IHb]; cbn; auto.
+  Qed.
+
+  (* a suite that binds nothing, generically: whatever attach_doc preserves is preserved *)
+  Lemma walk_nonbinding_gen : forall (Q : st -> Prop), (forall d s, Q s -> Q (attach_doc clean d s)) ->
+      forall x, nonbinding x = true -> forall sc flow inh outer s, Q s -> Q (walk_stmt clean x sc flow inh outer s).
+  Proof.
+    intros Q HQ x. induction x as [nm ds a body IH|nm bs body IH|ts r|t an r|t r|d|t b o IHb IHo|b h o f IHb IHh IHo IHf|b IHb|t b o IHb IHo|b o IHb IHo|ns|]
+      using stmt_ind'; intros Hnb sc flow inh outer s HS; cbn in Hnb; try discriminate; cbn [walk_stmt]; auto.
+    - destruct t; auto; apply andb_true_iff in Hnb; destruct Hnb as [Hb Ho];
+        apply (fold_preserves Q (fun y st => walk_stmt clean y sc _ inh outer st)); auto;
+        rewrite forallb_forall in Hb; apply Forall_forall; intros y Hy s0 Hs0; rewrite Forall_forall in IHb; apply IHb; auto.
+    - repeat (apply andb_true_iff in Hnb; destruct Hnb as [Hnb ?]).
+      apply (fold_preserves Q (fun y st => walk_stmt clean y sc _ inh outer st)); auto.
+      rewrite forallb_forall in Hnb; apply Forall_forall; intros y Hy s0 Hs0; rewrite Forall_forall in IHb; apply IHb; auto.
+    - apply (fold_preserves Q (fun y st => walk_stmt clean y sc _ inh outer st)); auto.
+      rewrite forallb_forall in Hnb; apply Forall_forall; intros y Hy s0 Hs0; rewrite Forall_forall in IHb; apply IHb; auto.
+    - apply andb_true_iff in Hnb; destruct Hnb as [Hb Ho].
+      apply (fold_preserves Q (fun y st => walk_stmt clean y sc _ inh outer st)); auto.
+      rewrite forallb_forall in Hb; apply Forall_forall; intros y Hy s0 Hs0; rewrite Forall_forall in IHb; apply IHb; auto.
+  Qed.
+
+  Definition imps_step_ok (x : stmt) : Prop :=
+    forall sc flow inh outer s e e' strict,
+      imps_ok s e -> py_stmt strict x (pscope_of sc) e = Some e' -> imps_ok (walk_stmt clean x sc flow inh outer s) e'.
+
+  Lemma imps_suite : forall body, Forall imps_step_ok body ->
+      forall sc flow inh outer s e e' strict,
+        imps_ok s e -> ofold (fun y e' => py_stmt strict y (pscope_of sc) e') body e = Some e' ->
+        imps_ok (fold_left (fun st y => walk_stmt clean y sc flow inh outer st) body s) e'.
+  Proof.
+    intros body HF. induction HF as [|y body Hy _ IH]; cbn [fold_left ofold]; intros sc flow inh outer s e e' strict HI Hpy.
+    - inversion Hpy; subst. exact HI.
+    - destruct (py_stmt strict y (pscope_of sc) e) as [e1|] eqn:E1; [|discriminate]. eapply IH; eauto.
+  Qed.
+
+  Lemma ofold_bind_data_mono : forall ns e e' v,
+      ofold (fun n e => bind_data n v e) ns e = Some e' -> forall n, plookup n e <> None -> plookup n e' <> None.
+  Proof.
+    induction ns as [|m ns IH]; cbn; intros e e' v H n Hn; [inversion H; subst; auto|].
+    destruct (bind_data m v e) as [e1|] eqn:E; [|discriminate]. eapply IH; eauto.
+    unfold bind_data in E. destruct (mem m py_meta_names); [discriminate|].
+    destruct (plookup m e) as [[| | |]|]; inversion E; subst; apply plookup_bind_mono; auto.
+  Qed.
+
+  Lemma bind_target_mono : forall v t e e', bind_target v t e = Some e' -> forall n, plookup n e <> None -> plookup n e' <> None.
+  Proof.
+    intros v t e e' H n Hn. destruct t as [m|ns|a]; cbn in H; [|eapply ofold_bind_data_mono; eauto|discriminate].
+    assert (Hb : forall w, bind_data m w e = Some e' -> plookup n e' <> None).
+    { intros w E. unfold bind_data in E. destruct (mem m py_meta_names); [discriminate|].
+      destruct (plookup m e) as [[| | |]|]; inversion E; subst; apply plookup_bind_mono; auto. }
+    destruct v; eauto. inversion H; subst. apply plookup_bind_mono; auto.
+  Qed.
+
+  Lemma bind_aux_mono : forall m e e', bind_aux m e = Some e' -> (forall n, plookup n e <> None -> plookup n e' <> None) /\ plookup m e' <> None.
+  Proof.
+    intros m e e' H. unfold bind_aux in H.
+    assert (e' = bind m VAux e) by (destruct (plookup m e) as [[| | |]|]; inversion H; reflexivity). subst. split.
+    - intros; apply plookup_bind_mono; auto.
+    - rewrite plookup_bind, text_eqb_refl. discriminate.
+  Qed.
+
+  Theorem imps_step : forall x, imps_step_ok x.
+  Proof.
+    intro x. induction x as [nm ds a body IH|nm bs body IH|ts r|t an r|t r|d|t b o IHb IHo|b h o f IHb IHh IHo IHf|b IHb|t b o IHb IHo|b o IHb IHo|ns|]
+      using stmt_ind'; intros sc flow inh outer s e e' strict HI Hpy.
+    - (* Def *)
+      cbn [py_stmt] in Hpy. destruct (def_wrap (pscope_of sc) ds WNone); [|discriminate].
+      match type of Hpy with (if ?c then _ else _) = _ => destruct c; [discriminate|] end. inversion Hpy; subst.
+      eapply imps_ok_mono; [|intros; apply plookup_bind_mono; eassumption|exact HI].
+      cbn [walk_stmt]. destruct (f_prop _); cbn; [apply imps_add_obj|].
+      unfold fwalk_body. rewrite (fold_imps (fwalk_stmt clean _ inh)); [cbn; apply imps_add_obj|].
+      apply Forall_forall. intros; apply fwalk_imps.
+    - (* Class *)
+      cbn [py_stmt] in Hpy. destruct (bases_exc strict e bs); [|discriminate].
+      destruct (ofold (fun y e'0 => py_stmt strict y PClass e'0) body []); [|discriminate]. inversion Hpy; subst.
+      eapply imps_ok_mono; [|intros; apply plookup_bind_mono; eassumption|exact HI].
+      cbn [walk_stmt]. cbn. apply imps_add_obj.
+    - (* Assign *)
+      cbn [py_stmt walk_stmt] in *. destruct (assign_value (pscope_of sc) e ts r) as [v|] eqn:Ev; [|discriminate].
+      assert (Hr : forall y, Some r <> Some (RName y)).
+      { intros y Hy. inversion Hy; subst. cbn in Ev. discriminate. }
+      clear Ev. revert s e HI Hpy. induction ts as [|t ts IHts]; cbn [fold_left ofold]; intros s e HI Hpy.
+      + inversion Hpy; subst; exact HI.
+      + destruct (bind_target v t e) as [e1|] eqn:Eb; [|discriminate]. eapply IHts; [|exact Hpy].
+        intros n Hn. eapply bind_target_mono; [exact Eb|]. apply HI.
+        destruct t as [m|ms|a0].
+        * destruct (imps_handle_assignment _ _ _ _ _ _ _ _ _ _ Hn) as [?|[_ [y Hy]]]; auto. exfalso. eapply Hr; eauto.
+        * clear - Hn. revert s Hn. induction ms as [|m ms IHm]; cbn [fold_left]; intros s Hn; auto.
+          apply IHm in Hn. destruct (imps_handle_assignment _ _ _ _ _ _ _ _ _ _ Hn) as [?|[_ [y Hy]]]; auto. discriminate.
+        * exact Hn.
+    - (* AnnAssign *)
+      cbn [py_stmt walk_stmt] in *. destruct t as [n| |]; try discriminate. destruct r as [r|]; [|discriminate].
+      destruct (assign_value (pscope_of sc) e [TName n] r) as [v|] eqn:Ev; [|discriminate].
+      intros m Hm. eapply bind_target_mono; [exact Hpy|]. apply HI.
+      destruct (imps_handle_assignment _ _ _ _ _ _ _ _ _ _ Hm) as [?|[_ [y Hy]]]; auto.
+      inversion Hy; subst. cbn in Ev. discriminate.
+    - (* AugAssign *)
+      cbn [py_stmt walk_stmt] in *. destruct t as [n| |]; try discriminate.
+      destruct (mem n py_meta_names); [discriminate|]. destruct (plookup n e) as [[| |w|]|] eqn:Ep; try discriminate.
+      inversion Hpy; subst. intros m Hm.
+      destruct (imps_handle_assignment _ _ _ _ _ _ _ _ _ _ Hm) as [H1|[H1 _]].
+      + apply plookup_bind_mono. auto.
+      + inversion H1; subst. rewrite plookup_bind, text_eqb_refl. discriminate.
+    - (* ExprStr *) cbn in Hpy. inversion Hpy; subst. cbn [walk_stmt]. eapply imps_ok_mono; [apply imps_attach_doc| |exact HI]. auto.
+    - (* If *)
+      destruct t; cbn [py_stmt walk_stmt] in *.
+      + destruct (nonbinding_suite o); inversion Hpy; subst. exact HI.
+      + destruct (nonbinding_suite o); [|discriminate]. eapply imps_suite; eauto.
+      + destruct (nonbinding_suite b) eqn:Enb; [|discriminate]. destruct (nonbinding_suite o); inversion Hpy; subst.
+        apply (fold_preserves (fun s => imps_ok s e') (fun y st => walk_stmt clean y sc _ inh outer st)); auto.
+        unfold nonbinding_suite in Enb. rewrite forallb_forall in Enb. apply Forall_forall. intros y Hy s0 Hs0.
+        apply (walk_nonbinding_gen (fun s => imps_ok s e')); auto.
+        intros d0 s1 H1. eapply imps_ok_mono; [apply imps_attach_doc| |exact H1]. auto.
+    - (* Try *)
+      cbn [py_stmt walk_stmt] in *. destruct (nonbinding_suite h && nonbinding_suite o && nonbinding_suite f); [|discriminate].
+      eapply imps_suite; eauto.
+    - (* With *) cbn [py_stmt walk_stmt] in *. eapply imps_suite; eauto.
+    - (* For *)
+      cbn [py_stmt walk_stmt] in *. destruct (nonbinding_suite o); [|discriminate].
+      destruct (bind_aux t e) as [e1|] eqn:Ea; [|discriminate].
+      eapply imps_suite; [exact IHb| |exact Hpy]. intros n Hn. apply (proj1 (bind_aux_mono _ _ _ Ea)). auto.
+    - (* While *)
+      cbn [py_stmt walk_stmt] in *. destruct (nonbinding_suite o); [|discriminate]. eapply imps_suite; eauto.
+    - (* Import *)
+      cbn [py_stmt walk_stmt] in *. revert s e HI Hpy. induction ns as [|n ns IHn]; cbn; intros s e HI Hpy.
+      + inversion Hpy; subst; exact HI.
+      + destruct (bind_aux n e) as [e1|] eqn:Ea; [|discriminate]. eapply IHn; [|exact Hpy].
+        destruct (bind_aux_mono _ _ _ Ea) as [Hm Hn]. intros m Hl. cbn in Hl.
+        destruct (text_eqb m n) eqn:E; [apply text_eqb_eq in E; subst; exact Hn|auto].
+    - (* Other *) cbn in Hpy. inversion Hpy; subst. exact HI.
+  Qed.
+
+  (* ================================================================ exception classes (module level) *)
+  Lemma mem_forall : forall l1 l2, forallb (fun x => mem x l2) l1 = true -> forall b, mem b l1 = true -> mem b l2 = true.
+  Proof.
+    intros l1 l2 H b Hb. rewrite forallb_forall in H. apply H. apply mem_In. exact Hb.
+  Qed.
+
+  (* the regenerated table against CPython's builtin exception hierarchy: every name of the table is a builtin
+     exception class, and every builtin exception class except the three new ones is in the table *)
+  Lemma std_table_sound : forall b, mem b std_lib_exceptions = true -> mem b py_builtin_exceptions = true.
+  Proof. apply mem_forall. vm_compute. reflexivity. Qed.
+
+  Lemma std_table_complete : forall b, mem b py_builtin_exceptions = true ->
+                                       mem b (py_new_exceptions ++ std_lib_exceptions) = true.
+  Proof. apply mem_forall. vm_compute. reflexivity. Qed.
+
+  Lemma mem_app : forall b l1 l2, mem b (l1 ++ l2) = mem b l1 || mem b l2.
+  Proof. intros. unfold mem. apply existsb_app. Qed.
+
+  Lemma builtin_exc_agree : forall b x,
+      mem b py_new_exceptions = false -> py_builtin_class b = Some x -> mem b std_lib_exceptions = x.
+  Proof.
+    intros b x Hn H. unfold py_builtin_class in H. destruct (mem b py_builtin_exceptions) eqn:E.
+    - inversion H; subst. apply std_table_complete in E. rewrite mem_app, Hn in E. exact E.
+    - destruct (mem b py_builtin_plain); inversion H; subst.
+      destruct (mem b std_lib_exceptions) eqn:E2; auto. apply std_table_sound in E2. congruence.
+  Qed.
+
+  Lemma base_exc_agree : forall s e b x,
+      agree_ns ScModule (contents s) e -> imps_ok s e ->
+      base_exc_py true e b = Some x -> base_exc (resolve [(contents s, imps s)] b) = x.
+  Proof.
+    intros s e b x HA HI H. inversion HA as [? ? ? R1 R2 R3 R4]; subst. unfold base_exc_py in H. cbn [resolve].
+    destruct (plookup b e) as [v|] eqn:Ep.
+    - destruct v as [| x' d' ns | |]; try discriminate. inversion H; subst x'.
+      assert (Hd : pdef b e = true) by (unfold pdef; rewrite Ep; reflexivity).
+      specialize (R2 b Hd). destruct (lookup b (contents s)) as [o|] eqn:E; [|congruence].
+      specialize (R4 _ _ _ E Ep eq_refl). inversion R4; subst. cbn. auto.
+    - assert (E : lookup b (contents s) = None).
+      { destruct (lookup b (contents s)) as [o|] eqn:E; auto. destruct (R3 _ _ E) as [Hd|[Hsc _]]; [|discriminate].
+        unfold pdef in Hd. rewrite Ep in Hd. discriminate. }
+      rewrite E.
+      assert (Ei : lookup b (imps s) = None).
+      { destruct (lookup b (imps s)) eqn:Ei; auto. exfalso. apply (HI b); [rewrite Ei; discriminate|exact Ep]. }
+      rewrite Ei. cbn. cbn [andb] in H. destruct (mem b py_new_exceptions) eqn:En; [discriminate|].
+      apply builtin_exc_agree; auto.
+  Qed.
+
+  Lemma bases_exc_agree : forall s e bs x,
+      agree_ns ScModule (contents s) e -> imps_ok s e ->
+      bases_exc true e bs = Some x -> existsb base_exc (map (resolve [(contents s, imps s)]) bs) = x.
+  Proof.
+    intros s e bs. induction bs as [|b bs IH]; cbn [bases_exc map existsb]; intros x HA HI H.
+    - inversion H; reflexivity.
+    - destruct (base_exc_py true e b) as [x1|] eqn:E1; [|discriminate].
+      destruct (bases_exc true e bs) as [x2|] eqn:E2; [|discriminate]. inversion H; subst.
+      rewrite (base_exc_agree _ _ _ _ HA HI E1). rewrite (IH _ HA HI eq_refl). reflexivity.
+  Qed.
+
   (* ================================================================ the simulation, one statement *)
   Definition step_ok (x : stmt) : Prop :=
     forall sc flow inh outer s e e',
-      St sc s e -> good_chain outer ->
+      St sc s e -> good_chain outer -> imps_ok s e -> (sc = ScModule -> outer = []) ->
       (forall n, In n (assigned_names x) -> sc = ScClass -> lookup n inh <> Some SNonAttr) ->
       no_inherited_shadow DN x = true -> incl (def_names x) DN ->
       py_stmt true x (pscope_of sc) e = Some e' ->
@@ -950,17 +1240,17 @@ Section Sim.
 
   Lemma suite_step : forall body, Forall step_ok body ->
       forall sc flow inh outer s e e',
-        St sc s e -> good_chain outer ->
+        St sc s e -> good_chain outer -> imps_ok s e -> (sc = ScModule -> outer = []) ->
         (forall n, In n (flat_map assigned_names body) -> sc = ScClass -> lookup n inh <> Some SNonAttr) ->
         forallb (no_inherited_shadow DN) body = true -> incl (flat_map def_names body) DN ->
         ofold (fun y e' => py_stmt true y (pscope_of sc) e') body e = Some e' ->
         St sc (fold_left (fun st y => walk_stmt clean y sc flow inh outer st) body s) e'.
   Proof.
-    intros body HF. induction HF as [|y body Hy _ IH]; cbn [fold_left ofold]; intros sc flow inh outer s e e' HS HG Hinh Hsh Hdn Hpy.
+    intros body HF. induction HF as [|y body Hy _ IH]; cbn [fold_left ofold]; intros sc flow inh outer s e e' HS HG HI Hout Hinh Hsh Hdn Hpy.
     - inversion Hpy; subst. exact HS.
     - destruct (py_stmt true y (pscope_of sc) e) as [e1|] eqn:E1; [|discriminate].
       cbn in Hsh. apply andb_true_iff in Hsh. destruct Hsh as [Hsh1 Hsh2].
-      eapply IH; [|exact HG| |exact Hsh2| |exact Hpy].
+      eapply IH; [|exact HG|eapply imps_step; eauto|exact Hout| |exact Hsh2| |exact Hpy].
       + eapply Hy; eauto.
         * intros; apply Hinh; auto. cbn. apply in_or_app. auto.
         * intros n Hn. apply Hdn. cbn. apply in_or_app. auto.
@@ -990,11 +1280,11 @@ Section Sim.
   Theorem step : forall x, step_ok x.
   Proof.
     intro x. induction x as [nm ds a body IH|nm bs body IH|ts r|t an r|t r|d|t b o IHb IHo|b h o f IHb IHh IHo IHf|b IHb|t b o IHb IHo|b o IHb IHo|ns|]
-      using stmt_ind'; intros sc flow inh outer s e e' HS HG Hinh Hsh Hdn Hpy.
+      using stmt_ind'; intros sc flow inh outer s e e' HS HG HI Hout Hinh Hsh Hdn Hpy.
     - (* Def *) eapply St_def; eauto. apply Hdn. cbn. auto.
     - (* Class *)
       cbn [py_stmt] in Hpy.
-      destruct (bases_exc e bs) as [xc|] eqn:Eb; [|discriminate].
+      destruct (bases_exc true e bs) as [xc|] eqn:Eb; [|discriminate].
       destruct (ofold (fun y e'0 => py_stmt true y PClass e'0) body []) as [ns|] eqn:En; [|discriminate].
       inversion Hpy; subst e'. clear Hpy.
       cbn [walk_stmt].
@@ -1018,9 +1308,11 @@ Section Sim.
                 (fold_left (fun st y => walk_stmt clean y ScClass flow ih
                                           ((contents (set_cur None (add_obj nm O1 s)), imps (set_cur None (add_obj nm O1 s))) :: outer) st)
                            body empty_st) ns).
-      { eapply (suite_step body IH ScClass); [| | |exact Hsh2| |exact En].
+      { eapply (suite_step body IH ScClass); [| | | | |exact Hsh2| |exact En].
         - split; [apply agree_empty|]. split; [intros n o []|intros n o []].
         - constructor; auto. cbn. exact (proj2 HG1).
+        - intros n Hn. cbn in Hn. congruence.
+        - discriminate.
         - intros n Hn _ Hl.
           destruct bs as [|b0 bs']; [cbn in Hl; discriminate|].
           rewrite forallb_forall in Hsh1. specialize (Hsh1 _ Hn).
@@ -1035,7 +1327,8 @@ Section Sim.
       destruct Hinner as [HAi HGi].
       split; cbn [contents].
       + eapply inv_point; [exact HA|eapply upd_fun_trans; [exact (proj1 HU1)|exact (proj1 HU2)]| |reflexivity].
-        constructor; [reflexivity|]. apply agree_infer_all. exact HAi.
+        constructor; [reflexivity|apply agree_infer_all; exact HAi|].
+        intros Hsc. subst sc. specialize (Hout eq_refl). subst outer. subst rs chain. apply (bases_exc_agree s e bs xc HA HI Eb).
       + eapply good_upd; [exact HG1|exact HU2| |intros _; exact Hnm].
         cbn. split; auto. apply nonattr_infer_all. exact (proj1 HGi).
     - (* Assign *) eapply St_assign; eauto.
@@ -1048,7 +1341,7 @@ Section Sim.
       + destruct (nonbinding_suite o); inversion Hpy; subst. exact HS.
       + destruct (nonbinding_suite o); [|discriminate].
         eapply (suite_step b IHb sc _ inh outer s e e');
-          [exact HS|exact HG|intros; apply Hinh; auto; apply in_or_app; auto|exact Hsb|eapply incl_app_l; exact Hdn|exact Hpy].
+          [exact HS|exact HG|exact HI|exact Hout|intros; apply Hinh; auto; apply in_or_app; auto|exact Hsb|eapply incl_app_l; exact Hdn|exact Hpy].
       + destruct (nonbinding_suite b) eqn:Enb; [|discriminate]. destruct (nonbinding_suite o); inversion Hpy; subst.
         eapply nb_suite; eauto. apply Forall_forall. intros y _ Hy. apply walk_nonbinding. exact Hy.
     - (* Try *)
@@ -1057,21 +1350,21 @@ Section Sim.
       cbn [def_names assigned_names py_stmt walk_stmt] in *.
       destruct (nonbinding_suite h && nonbinding_suite o && nonbinding_suite f); [|discriminate].
       eapply (suite_step b IHb sc _ inh outer s e e');
-        [exact HS|exact HG|intros; apply Hinh; auto; apply in_or_app; auto|exact Hsb|eapply incl_app_l; exact Hdn|exact Hpy].
+        [exact HS|exact HG|exact HI|exact Hout|intros; apply Hinh; auto; apply in_or_app; auto|exact Hsb|eapply incl_app_l; exact Hdn|exact Hpy].
     - (* With *)
       cbn [no_inherited_shadow def_names assigned_names py_stmt walk_stmt] in *.
-      eapply (suite_step b IHb sc _ inh outer s e e'); [exact HS|exact HG|exact Hinh|exact Hsh|exact Hdn|exact Hpy].
+      eapply (suite_step b IHb sc _ inh outer s e e'); [exact HS|exact HG|exact HI|exact Hout|exact Hinh|exact Hsh|exact Hdn|exact Hpy].
     - (* For *)
       cbn in Hsh. apply andb_true_iff in Hsh. destruct Hsh as [Hsb Hso]. cbn [def_names assigned_names py_stmt walk_stmt] in *.
       destruct (nonbinding_suite o); [|discriminate].
       destruct (bind_aux t e) as [e1|] eqn:Ea; [|discriminate].
       eapply (suite_step b IHb sc _ inh outer s e1 e');
-        [eapply bind_aux_St; eauto|exact HG|intros; apply Hinh; auto; apply in_or_app; auto|exact Hsb|eapply incl_app_l; exact Hdn|exact Hpy].
+        [eapply bind_aux_St; eauto|exact HG|intros n0 Hn0; apply (proj1 (bind_aux_mono _ _ _ Ea)); auto|exact Hout|intros; apply Hinh; auto; apply in_or_app; auto|exact Hsb|eapply incl_app_l; exact Hdn|exact Hpy].
     - (* While *)
       cbn in Hsh. apply andb_true_iff in Hsh. destruct Hsh as [Hsb Hso]. cbn [def_names assigned_names py_stmt walk_stmt] in *.
       destruct (nonbinding_suite o); [|discriminate].
       eapply (suite_step b IHb sc _ inh outer s e e');
-        [exact HS|exact HG|intros; apply Hinh; auto; apply in_or_app; auto|exact Hsb|eapply incl_app_l; exact Hdn|exact Hpy].
+        [exact HS|exact HG|exact HI|exact Hout|intros; apply Hinh; auto; apply in_or_app; auto|exact Hsb|eapply incl_app_l; exact Hdn|exact Hpy].
     - (* Import *)
       cbn [py_stmt walk_stmt] in *. apply (St_contents_eq sc s); [apply import_contents|].
       clear - HS Hpy. revert e HS Hpy. induction ns as [|n ns IHn]; cbn; intros e HS Hpy.
@@ -1103,7 +1396,7 @@ Proof.
              (fun sc c e => forall inh, agree_ns clean sc (post_contents inh c) e)).
     - intros sc k a d w d' Hk Hd inh n. cbn. constructor; auto.
     - intros d an va a d' inh n. cbn. constructor.
-    - intros sc x d c oo ih x' d' ns Hd _ IH inh n. cbn. constructor; auto. apply (IH ih).
+    - intros sc x d c oo ih x' d' ns Hd _ IH Hx inh n. cbn. constructor; auto. apply (IH ih).
     - intros sc k d an va v Hk inh n. cbn. destruct k; try (constructor; assumption).
       destruct (inherits_ivar inh n); constructor; discriminate.
     - intros sc c e R1 R2 R3 R4 IH4 inh. unfold post_contents. constructor.
@@ -1137,6 +1430,8 @@ Proof.
     - apply Forall_forall. intros x _. apply step.
     - split; [apply agree_empty|]. split; intros n o [].
     - constructor.
+    - intros n Hn. cbn in Hn. congruence.
+    - reflexivity.
     - intros n _ Hsc. discriminate.
     - exact Hg.
     - apply incl_refl. }
@@ -1224,4 +1519,59 @@ Proof.
   assert (Hd : pdef n e' = true) by (unfold pdef; rewrite Hp; reflexivity).
   specialize (R2 n Hd). destruct (lookup n c') as [o|] eqn:E; [|congruence].
   specialize (R4 _ _ _ E Hp eq_refl). inversion R4; subst. eauto 8.
+Qed.
+
+(* ================================================================ attribute docstrings (builder.currentAttr) *)
+Definition not_name (r : rhs) : Prop := match r with RName _ => False | _ => True end.
+
+(* a string statement right after `n = <expr>` at module level becomes the docstring of n *)
+Lemma attr_doc_after_assign : forall clean flow inh outer n r d s,
+    NoDup (keys (contents s)) -> mem n module_meta_vars = false -> not_name r ->
+    (forall o, lookup n (contents s) = Some o -> is_attr o = true) ->
+    let s1 := walk_stmt clean (Assign [TName n] r) ScModule flow inh outer s in
+    cur s1 = Some n /\
+    exists k a v, lookup n (contents (walk_stmt clean (ExprStr d) ScModule flow inh outer s1)) = Some (OAttr k (Some (clean d)) a v).
+Proof.
+  intros clean flow inh outer n r d s ND Hm Hr Hat. cbn [walk_stmt fold_left handle_assignment].
+  assert (Hal : aliasing outer n (Some r) s = None).
+  { unfold aliasing. destruct (lookup n (contents s)); auto. destruct r; auto; contradiction. }
+  rewrite Hal. unfold handle_module_var. rewrite Hm.
+  assert (Hgen : forall s0 k0 d0 a0 v0, NoDup (keys (contents s0)) -> lookup n (contents s0) = Some (OAttr k0 d0 a0 v0) ->
+            let s1 := handle_var KVariable flow n None (Some r) false s0 in
+            cur s1 = Some n /\ exists k a v, lookup n (contents (attach_doc clean d s1)) = Some (OAttr k (Some (clean d)) a v)).
+  { intros s0 k0 d0 a0 v0 ND0 E0. unfold handle_var. cbn [cur set_cur]. split; [reflexivity|].
+    set (f := fun k (d1 : option text) a v => OAttr (handle_constant n flow KVariable k v (Some r)) d1 (set_ann a None) (store_value v (Some r) false)).
+    destruct (upd_attr_upd n f s0 k0 d0 a0 v0 ND0 E0) as [[ND1 L1] _].
+    unfold attach_doc. cbn [cur set_cur].
+    set (s2 := set_cur (Some n) (upd_attr n f s0)).
+    assert (E2 : lookup n (contents s2) = Some (f k0 d0 a0 v0)) by (cbn; rewrite L1, text_eqb_refl; reflexivity).
+    set (g := fun k (_ : option text) a v => OAttr k (Some (clean d)) a v).
+    destruct (upd_attr_upd n g s2 _ _ _ _ ND1 E2) as [[_ L2] _].
+    cbn [contents set_cur]. rewrite L2, text_eqb_refl. subst f g. cbn. eexists. eexists. eexists. reflexivity. }
+  destruct (lookup n (contents s)) as [o|] eqn:E.
+  - specialize (Hat o eq_refl). rewrite Hat. destruct o as [| |k0 d0 a0 v0]; try discriminate. eapply Hgen; eauto.
+  - destruct (add_obj_upd n (OAttr KVariable None None None) s ND) as [[ND1 L1] _].
+    eapply Hgen; [exact ND1|]. rewrite L1, text_eqb_refl. reflexivity.
+Qed.
+
+(* a string statement after a def that is not a property, or after a class, is nobody's docstring *)
+Lemma string_after_def_ignored : forall clean sc flow inh outer nm ds a body d s,
+    f_prop (deco_flags (match sc with ScClass => true | ScModule => false end) nm ds) = false ->
+    let s1 := walk_stmt clean (Def nm ds a body) sc flow inh outer s in
+    walk_stmt clean (ExprStr d) sc flow inh outer s1 = s1.
+Proof. intros clean sc flow inh outer nm ds a body d s Hf. cbn [walk_stmt]. rewrite Hf. reflexivity. Qed.
+
+Lemma string_after_class_ignored : forall clean sc flow inh outer nm bs body d s,
+    let s1 := walk_stmt clean (Class nm bs body) sc flow inh outer s in
+    walk_stmt clean (ExprStr d) sc flow inh outer s1 = s1.
+Proof. intros. reflexivity. Qed.
+
+(* an augmented assignment to a documented variable ends the docstring window *)
+Lemma string_after_augassign_ignored : forall clean flow inh outer n r d s k0 d0 a0 v0,
+    mem n module_meta_vars = false -> lookup n (contents s) = Some (OAttr k0 d0 a0 v0) ->
+    let s1 := walk_stmt clean (AugAssign (TName n) r) ScModule flow inh outer s in
+    walk_stmt clean (ExprStr d) ScModule flow inh outer s1 = s1.
+Proof.
+  intros clean flow inh outer n r d s k0 d0 a0 v0 Hm E. cbn [walk_stmt handle_assignment].
+  unfold aliasing. rewrite E. unfold handle_module_var. rewrite Hm, E. cbn [is_attr]. reflexivity.
 Qed.
